@@ -23,11 +23,11 @@ typedef unsigned __int128 u128;
 
 enum {
 	K_JOB_ADD, K_JOB_DEL, K_TIMER_ADD, K_TIMER_DEL, K_TIMER_QUERY, K_FD_OPEN, K_FD_ADD, K_FD_MOD, K_FD_DEL, K_FD_CLOSE,
-	K_FD_WRITE, K_FD_DRAIN, K_FD_PEER_CLOSE, K_FD_RETNEG, K_SIG_ADD, K_SIG_DEL, K_RAISE, K_STOP, K_BUSY, K_FD_CLOSE_RETNEG, K_N
+	K_FD_WRITE, K_FD_DRAIN, K_FD_PEER_CLOSE, K_FD_RETNEG, K_SIG_ADD, K_SIG_DEL, K_RAISE, K_STOP, K_BUSY, K_FD_CLOSE_RETNEG, K_SIG_MOD, K_N
 };
 static const char *const op_names[K_N] = {
 	"job_add", "job_del", "timer_add", "timer_del", "timer_query", "fd_open", "fd_add", "fd_mod", "fd_del", "fd_close",
-	"fd_write", "fd_drain", "fd_peer_close", "fd_retneg", "sig_add", "sig_del", "raise", "stop", "busy", "fd_close_retneg"
+	"fd_write", "fd_drain", "fd_peer_close", "fd_retneg", "sig_add", "sig_del", "raise", "stop", "busy", "fd_close_retneg", "sig_mod"
 };
 // Op layout: a[0] trigger (>= 0: object whose callback triggers it; -1: before the loop runs; -2: external event
 // at virtual time a[1] ns; -3: asynchronously at the a[1]-th intercepted libc call), a[1] nth invocation / time /
@@ -60,7 +60,8 @@ struct Obj {
 	int rfd = -1, wfd = -1; bool reg = false; int fprio = 0; int events = 0; int64_t bytes = 0; bool peer_closed = false;
 	bool neg_pending = false; uint32_t neg_gen = 0; int neg_fd = -1;   // the callback closed its descriptor and will return a negative value
 	bool retneg_armed = false; int64_t ready_since = -1; int64_t fdl = -1; bool always_ready = false;
-	bool fdl_at_poll = false;            // the descriptor joins its level's queue at the next poll: everything queued until then is ahead of it
+	bool fdl_at_poll = false;
+	bool salt = false;                   // signal handler: which of the two callback entry points is the registered one            // the descriptor joins its level's queue at the next poll: everything queued until then is ahead of it
 	// signal handler
 	qb_loop_signal_handle sh = NULL; bool sreg = false; int sprio = 0; int signo = 0; int must = 0, may = 0; int64_t s_since = -1; int64_t sdl = -1;
 };
@@ -71,6 +72,7 @@ struct St {
 	bool in_sigop = false;                                     // inside qb_loop_signal_add/del: no asynchronous delivery
 	std::vector<size_t> deferred_async;
 	qb_loop_t *loop = NULL;
+	bool use_default = false;            // name the loop as NULL ("the default loop") in every API call
 	std::vector<Obj> objs;
 	int nj = 0, nt = 0, nf = 0, ns = 0;
 	std::multimap<std::pair<int, int64_t>, size_t> trig;      // (object, nth) -> op index
@@ -100,7 +102,7 @@ static St *Lp;
 #define L (*Lp)
 
 static int p_del_queued_timer, p_del_queued_fd, p_del_queued_job, p_del_queued_sig, p_self_del, p_readd_in_cb, p_stale_handle,
-	p_slot_reuse_stale, p_fd_reuse, p_two_sig_then_del, p_retneg, p_close_retneg, p_number_reused_in_cb, p_stop, p_throttle50, p_ms31, p_ms32, p_overflow, p_equal_expiry,
+	p_slot_reuse_stale, p_fd_reuse, p_two_sig_then_del, p_retneg, p_close_retneg, p_number_reused_in_cb, p_default_loop, p_sig_mod, p_fd_mod_data, p_stop, p_throttle50, p_ms31, p_ms32, p_overflow, p_equal_expiry,
 	p_timer_fired, p_long_run, p_eintr_epoll, p_async_sig, p_hup, p_busy;
 
 static void init(const char *prop)
@@ -117,6 +119,9 @@ static void init(const char *prop)
 	p_fd_reuse = counter_id("probe", "fd_number_reused");
 	p_two_sig_then_del = counter_id("probe", "two_queued_deliveries_then_delete");
 	p_retneg = counter_id("probe", "fd_callback_returned_negative");
+	p_default_loop = counter_id("probe", "loop_named_as_NULL_default_loop");
+	p_sig_mod = counter_id("probe", "signal_handler_modified");
+	p_fd_mod_data = counter_id("probe", "poll_mod_with_new_callback_data");
 	p_close_retneg = counter_id("probe", "fd_callback_closed_its_descriptor_then_returned_negative");
 	p_number_reused_in_cb = counter_id("probe", "descriptor_number_reused_and_registered_inside_the_closing_callback");
 	p_stop = counter_id("probe", "stop_from_callback");
@@ -137,6 +142,9 @@ static void init(const char *prop)
 static inline u128 mono_now() { return (u128)(uint64_t)mono_base() + (u128)(uint64_t)now_ns(); }
 static inline int64_t slack_ns() { return L.clock_res_ns; }
 
+extern "C" struct qb_loop *qb_loop_default_get(void);      // lib/loop_int.h
+// the loop as the API calls name it: the first loop created is also the default one, which NULL stands for
+#define LP (L.use_default ? (qb_loop_t *)NULL : L.loop)
 #define VIOL(prop, cls, site, ...) do { if (which == (prop) || (prop) == 0) fail(cls, site, __VA_ARGS__); } while (0)
 
 // ------------------------------------------------------------------ model helpers
@@ -195,7 +203,7 @@ static void note_callback(int prio)
 				VIOL(which == 10 ? 10 : 8, "descriptors-not-polled", "qb_loop_run", "400 callbacks were dispatched without the loop polling its descriptors once, while a delivered signal waits for handler %d", o.id);
 		}
 	}
-	if (L.cb_since_epoll == 20000 && !L.stopped) { qb_loop_stop(L.loop); L.stopped = true; }      // nothing to judge: end the run
+	if (L.cb_since_epoll == 20000 && !L.stopped) { qb_loop_stop(LP); L.stopped = true; }      // nothing to judge: end the run
 	if (L.stopped && L.stop_by_plan) VIOL(8, "callback-after-stop", "qb_loop_run", "a callback ran after qb_loop_stop had been called from a callback");
 	L.disp_iter[prio]++;
 }
@@ -219,7 +227,7 @@ static void job_cb(void *data)
 	L.jobs_pending_total--;
 	o.invoked++;
 	for (int k = 0; k < o.readd && !L.stopped && L.fifo[o.jprio].size() < 48; k++) {
-		if (qb_loop_job_add(L.loop, (enum qb_loop_priority)o.jprio, &o, job_cb) == 0) {
+		if (qb_loop_job_add(LP, (enum qb_loop_priority)o.jprio, &o, job_cb) == 0) {
 			o.jpend.push_back(++L.addseq); o.jsince.push_back(L.iter);
 			L.fifo[o.jprio].push_back(std::make_pair(L.addseq, o.id));
 			o.jdl.push_back(deadline(o.jprio));
@@ -265,7 +273,7 @@ static void timer_cb(void *data)
 	o.invoked++;
 	if (o.rearm && !L.stopped) {
 		qb_loop_timer_handle h = 0;
-		if (qb_loop_timer_add(L.loop, (enum qb_loop_priority)o.tprio, o.rearm_dur, new_cookie(o), timer_cb, &h) == 0) { o.th = h; timer_add_model(o, o.tprio, o.rearm_dur); }
+		if (qb_loop_timer_add(LP, (enum qb_loop_priority)o.tprio, o.rearm_dur, new_cookie(o), timer_cb, &h) == 0) { o.th = h; timer_add_model(o, o.tprio, o.rearm_dur); }
 	}
 	fire_triggers(o);
 }
@@ -311,10 +319,16 @@ static int32_t fd_cb(int32_t fd, int32_t revents, void *data)
 	return 0;
 }
 
-static int32_t sig_cb(int32_t sig, void *data)
+static int32_t sig_cb_common(int32_t sig, void *data, bool alt);
+// two entry points, so that qb_loop_signal_mod() can be seen to install the function it was given
+static int32_t sig_cb(int32_t sig, void *data) { return sig_cb_common(sig, data, false); }
+static int32_t sig_cb_alt(int32_t sig, void *data) { return sig_cb_common(sig, data, true); }
+static int32_t sig_cb_common(int32_t sig, void *data, bool alt)
 {
 	Reg *rg = (Reg *)data;
 	Obj &o = L.objs[(size_t)rg->obj];
+	if (o.sreg && rg->gen == o.gen && alt != o.salt)
+		VIOL(8, "signal-callback-wrong-function", "qb_loop_signal_mod", "handler %d was called through the function registered before qb_loop_signal_mod() replaced it", o.id);
 	ev(303, o.id, sig);
 	note_callback(o.sprio);
 	if (L.in_async) VIOL(8, "signal-callback-in-handler", "qb_loop_signal_add", "signal callback %d invoked from the asynchronous handler", o.id);
@@ -385,7 +399,7 @@ static void do_op(size_t oi, int from_obj)
 	case K_JOB_ADD: {
 		if (o.type != O_JOB || L.stopped) break;
 		if (!o.jpend.empty() && o.jprio != prio) prio = o.jprio;     // one priority per job object keeps the FIFO oracle simple
-		int r = qb_loop_job_add(L.loop, (enum qb_loop_priority)prio, &o, job_cb);
+		int r = qb_loop_job_add(LP, (enum qb_loop_priority)prio, &o, job_cb);
 		if (r != 0) { VIOL(8, "job-add-failed", "qb_loop_job_add", "qb_loop_job_add returned %d", r); break; }
 		o.jprio = prio;
 		o.jpend.push_back(++L.addseq); o.jsince.push_back(L.iter);
@@ -398,7 +412,7 @@ static void do_op(size_t oi, int from_obj)
 		if (o.type != O_JOB) break;
 		bool pend = !o.jpend.empty();
 		bool queued = pend && o.jsince.front() < L.iter;
-		int r = qb_loop_job_del(L.loop, (enum qb_loop_priority)o.jprio, &o, job_cb);
+		int r = qb_loop_job_del(LP, (enum qb_loop_priority)o.jprio, &o, job_cb);
 		if (pend) {
 			if (r != 0) { VIOL(8, "delete-refused", "qb_loop_job_del", "qb_loop_job_del of pending job %d returned %d", o.id, r); break; }
 			if (queued) count(p_del_queued_job);
@@ -422,7 +436,7 @@ static void do_op(size_t oi, int from_obj)
 		// durations whose millisecond value needs more than 30 bits are C09's subject (timeout arithmetic), keep them out of C08/C10
 		if (which != 9) dur %= (1ULL << 30) * 1000000ULL;
 		qb_loop_timer_handle h = 0;
-		int r = qb_loop_timer_add(L.loop, (enum qb_loop_priority)prio, dur, new_cookie(o), timer_cb, &h);
+		int r = qb_loop_timer_add(LP, (enum qb_loop_priority)prio, dur, new_cookie(o), timer_cb, &h);
 		if (r != 0) { VIOL(0, "timer-add-failed", "qb_loop_timer_add", "qb_loop_timer_add(%llu ns) returned %d", (unsigned long long)dur, r); break; }
 		o.th = h;
 		timer_add_model(o, prio, dur);
@@ -440,7 +454,7 @@ static void do_op(size_t oi, int from_obj)
 				if (L.objs[i].type == O_TIMER && L.objs[i].tpend && (L.objs[i].th & 0xffffffffULL) == (h & 0xffffffffULL) && L.objs[i].id != o.id) count(p_slot_reuse_stale);
 		}
 		bool queued = o.tpend && !o.unrep && o.first_iter_expired >= 0;
-		int r = qb_loop_timer_del(L.loop, h);
+		int r = qb_loop_timer_del(LP, h);
 		if (o.tpend) {
 			if (r != 0) { VIOL(8, "delete-refused", "qb_loop_timer_del", "qb_loop_timer_del of pending timer %d returned %d", o.id, r); break; }
 			if (queued) count(p_del_queued_timer);
@@ -456,8 +470,8 @@ static void do_op(size_t oi, int from_obj)
 		qb_loop_timer_handle h = o.th;
 		if (!o.tpend && !o.stale.empty()) h = o.stale[(size_t)((uint64_t)op.a[3] % o.stale.size())];
 		if (h == 0) break;
-		uint64_t rem = qb_loop_timer_expire_time_remaining(L.loop, h);
-		int run = qb_loop_timer_is_running(L.loop, h);
+		uint64_t rem = qb_loop_timer_expire_time_remaining(LP, h);
+		int run = qb_loop_timer_is_running(LP, h);
 		u128 now = mono_now();
 		ev(340, (int64_t)(rem != 0), run);
 		if (o.tpend && !o.unrep && now < o.expiry) {
@@ -476,7 +490,7 @@ static void do_op(size_t oi, int from_obj)
 		break; }
 	case K_FD_ADD: {
 		if (o.type != O_FD || o.rfd < 0 || o.reg || L.stopped) break;
-		int r = qb_loop_poll_add(L.loop, (enum qb_loop_priority)prio, o.rfd, POLLIN, new_cookie(o), fd_cb);
+		int r = qb_loop_poll_add(LP, (enum qb_loop_priority)prio, o.rfd, POLLIN, new_cookie(o), fd_cb);
 		if (r != 0) { VIOL(8, "poll-add-failed", "qb_loop_poll_add", "qb_loop_poll_add(fd) returned %d", r); break; }
 		o.reg = true; o.fprio = prio; o.events = POLLIN;
 		o.ready_since = -1; fd_mark_ready(o);
@@ -485,14 +499,17 @@ static void do_op(size_t oi, int from_obj)
 	case K_FD_MOD: {
 		if (o.type != O_FD || !o.reg) break;
 		int evs = (op.a[4] & 1) ? (POLLIN | POLLPRI) : POLLIN;
-		int r = qb_loop_poll_mod(L.loop, (enum qb_loop_priority)prio, o.rfd, evs, o.cookie, fd_cb);
+		// half of the modifications also hand over new callback data: from then on every callback must carry it
+		bool newdata = (op.a[4] & 2) != 0;
+		if (newdata) { new_cookie(o); count(p_fd_mod_data); }
+		int r = qb_loop_poll_mod(LP, (enum qb_loop_priority)prio, o.rfd, evs, o.cookie, fd_cb);
 		if (r != 0) { VIOL(8, "poll-mod-failed", "qb_loop_poll_mod", "qb_loop_poll_mod of registered descriptor object %d returned %d", o.id, r); break; }
 		o.fprio = prio; o.events = evs;
 		if (o.ready_since >= 0) o.fdl = deadline(prio) + 1;     // it queues at the new level from now on
 		break; }
 	case K_FD_DEL: {
 		if (o.type != O_FD || o.rfd < 0) break;
-		int r = qb_loop_poll_del(L.loop, o.rfd);
+		int r = qb_loop_poll_del(LP, o.rfd);
 		if (o.reg) {
 			if (r != 0) { VIOL(8, "delete-refused", "qb_loop_poll_del", "qb_loop_poll_del of registered descriptor object %d returned %d", o.id, r); break; }
 			if (o.ready_since >= 0 && o.ready_since < L.iter) count(p_del_queued_fd);
@@ -545,10 +562,10 @@ static void do_op(size_t oi, int from_obj)
 		int si = (int)(((op.a[4] % 4) + 4) % 4);
 		qb_loop_signal_handle h = NULL;
 		L.in_sigop = true;
-		int r = qb_loop_signal_add(L.loop, (enum qb_loop_priority)prio, SIGS[si], new_cookie(o), sig_cb, &h);
+		int r = qb_loop_signal_add(LP, (enum qb_loop_priority)prio, SIGS[si], new_cookie(o), sig_cb, &h);
 		L.in_sigop = false;
 		if (r != 0) { VIOL(8, "signal-add-failed", "qb_loop_signal_add", "qb_loop_signal_add returned %d", r); break; }
-		o.sh = h; o.sreg = true; o.sprio = prio; o.signo = SIGS[si]; o.must = 0; o.s_since = -1; o.sdl = -1;
+		o.sh = h; o.sreg = true; o.sprio = prio; o.signo = SIGS[si]; o.salt = false; o.must = 0; o.s_since = -1; o.sdl = -1;
 		// a delivery that is still on its way through the pipe may or may not reach a handler added now
 		o.may = 0;
 		for (size_t k = 0; k < L.sig_inflight.size(); k++) if (L.sig_inflight[k] == si) o.may++;
@@ -559,10 +576,26 @@ static void do_op(size_t oi, int from_obj)
 		if (o.must >= 2) count(p_two_sig_then_del);
 		if (from_obj == tgt) count(p_self_del);
 		L.in_sigop = true;
-		int r = qb_loop_signal_del(L.loop, o.sh);
+		int r = qb_loop_signal_del(LP, o.sh);
 		L.in_sigop = false;
 		if (r != 0) { VIOL(8, "delete-refused", "qb_loop_signal_del", "qb_loop_signal_del returned %d", r); break; }
 		o.sreg = false; o.must = o.may = 0; o.s_since = -1; o.sdl = -1; o.sh = NULL;
+		break; }
+	case K_SIG_MOD: {
+		// change level and / or signal number of a handler that has no delivery on its way (a queued delivery keeps
+		// the level and number it was queued with; keeping those cases out keeps the model simple)
+		if (o.type != O_SIG || !o.sreg || o.must || o.may || L.stopped) break;
+		int si = (int)(((op.a[4] % 4) + 4) % 4);
+		bool busy = false;
+		for (size_t k = 0; k < L.sig_inflight.size(); k++) if (SIGS[L.sig_inflight[k]] == o.signo || L.sig_inflight[k] == si) busy = true;
+		if (busy) break;
+		L.in_sigop = true;
+		bool alt = !o.salt;
+		int r = qb_loop_signal_mod(LP, (enum qb_loop_priority)prio, SIGS[si], o.cookie, alt ? sig_cb_alt : sig_cb, o.sh);
+		L.in_sigop = false;
+		if (r != 0) { VIOL(8, "signal-mod-failed", "qb_loop_signal_mod", "qb_loop_signal_mod returned %d", r); break; }
+		o.sprio = prio; o.signo = SIGS[si]; o.salt = alt;
+		count(p_sig_mod);
 		break; }
 	case K_RAISE:
 		if (L.stopped) break;
@@ -570,7 +603,7 @@ static void do_op(size_t oi, int from_obj)
 		break;
 	case K_STOP:
 		if (from_obj < 0) break;
-		qb_loop_stop(L.loop);
+		qb_loop_stop(LP);
 		L.stopped = true; L.stop_by_plan = true;
 		count(p_stop);
 		break;
@@ -690,10 +723,10 @@ static void on_epoll_wait(int timeout)
 				VIOL(which == 9 ? 9 : 8, "timer-late", "qb_loop_run", "timer %d not dispatched %lld iterations after the loop first woke past its expiry (allowed %lld)", o.id, (long long)(L.iter - o.first_iter_expired), (long long)(o.tdl - o.first_iter_expired));
 		}
 	}
-	if (L.iter >= L.max_iter && !L.stopped) { qb_loop_stop(L.loop); L.stopped = true; }
+	if (L.iter >= L.max_iter && !L.stopped) { qb_loop_stop(LP); L.stopped = true; }
 	if (!L.stopped) {
 		bool tp;
-		if (!model_has_work(tp) && L.ext_next >= L.ext.size()) { qb_loop_stop(L.loop); L.stopped = true; }
+		if (!model_has_work(tp) && L.ext_next >= L.ext.size()) { qb_loop_stop(LP); L.stopped = true; }
 	}
 }
 
@@ -710,7 +743,7 @@ static int on_blocked_forever()
 	bool work = model_has_work(tp);
 	if (tp) VIOL(9, "blocks-forever-with-timer-pending", "qb_loop_run", "the loop blocked indefinitely although a timer is pending");
 	else if (work) VIOL(8, "blocks-forever-with-work-pending", "qb_loop_run", "the loop blocked indefinitely although a job, ready descriptor or delivered signal is pending");
-	qb_loop_stop(L.loop); L.stopped = true;
+	qb_loop_stop(LP); L.stopped = true;
 	return 0;
 }
 static void on_fault(int kind)
@@ -772,6 +805,7 @@ static void gen(const char *prop, RunSpec &spec)
 	static const int64_t RES[] = { 1, 1, 1000000, 4000000, 10000000 };
 	p.set("clock_res_ns", RES[r.below(5)]);
 	p.set("rate_eintr", r.chance(1, 3) ? (int64_t)r.range(300, 4000) : 0);
+	p.set("default_loop", r.chance(1, 6));
 	{ static const int64_t TICK[] = { 1000000, 4000000, 4000000, 10000000 }; p.set("coarse_tick_ns", TICK[r.below(4)]); }   // HZ 1000 / 250 / 100
 	p.set("rate_shuffle", r.chance(1, 2) ? (int64_t)r.range(2000, 30000) : 0);
 	// clock base: ordinary uptime, or close to 2^63 ns
@@ -851,7 +885,7 @@ static void gen(const char *prop, RunSpec &spec)
 			else if (y < 28) p.add(0, K_FD_ADD, trg, nth, t, r.below(3));
 			else if (y < 48) { if (r.chance(1, 2)) p.add(0, K_FD_WRITE, trg, nth, t, r.below(8)); else p.add(0, K_FD_WRITE, -2, (int64_t)r.below(3000000000ULL), t, r.below(8)); }
 			else if (y < 58) p.add(0, K_FD_DRAIN, trg, nth, t);
-			else if (y < 66) p.add(0, K_FD_MOD, trg, nth, t, r.below(3), r.below(2));
+			else if (y < 66) p.add(0, K_FD_MOD, trg, nth, t, r.below(3), r.below(4));
 			else if (y < 78) { p.add(0, K_FD_DEL, trg, nth, t); if (r.chance(1, 2)) { p.add(0, K_FD_CLOSE, trg, nth, t); if (r.chance(2, 3)) { p.add(0, K_FD_OPEN, trg, nth, t); p.add(0, K_FD_ADD, trg, nth, t, r.below(3)); } } }
 			else if (y < 88 && r.chance(1, 3)) {
 				p.add(0, K_FD_CLOSE_RETNEG, t, nth, t);
@@ -868,7 +902,8 @@ static void gen(const char *prop, RunSpec &spec)
 			uint32_t y = (uint32_t)r.below(100);
 			int64_t si = (int64_t)r.below(r.chance(2, 3) ? 1 : 4);
 			if (y < 30) p.add(0, K_SIG_ADD, trg, nth, t, r.below(3), si);
-			else if (y < 50) p.add(0, K_SIG_DEL, trg, nth, t);
+			else if (y < 44) p.add(0, K_SIG_DEL, trg, nth, t);
+			else if (y < 50) p.add(0, K_SIG_MOD, trg, nth, t, r.below(3), si);
 			else if (y < 70) p.add(0, K_RAISE, trg, nth, 0, si);
 			else if (y < 85) { p.add(0, K_RAISE, trg, nth, 0, si); p.add(0, K_RAISE, trg, nth, 0, si); }
 			else if (y < 93) p.add(0, K_RAISE, -2, (int64_t)r.below(3000000000ULL), 0, si);
@@ -887,6 +922,8 @@ static void loop_task(void *)
 	const Plan &p = L.spec->plan;
 	L.loop = qb_loop_create();
 	if (!L.loop) { fail("loop-create-failed", "qb_loop_create", "qb_loop_create returned NULL"); return; }
+	L.use_default = p.get("default_loop", 0) != 0 && qb_loop_default_get() == L.loop;
+	if (L.use_default) count(p_default_loop);
 	// setup operations
 	for (size_t i = 0; i < p.ops.size() && !failed(); i++) {
 		const Op &op = p.ops[i];
@@ -900,7 +937,7 @@ static void loop_task(void *)
 			if (op.kind == K_FD_ADD && which == 10 && o.type == O_FD) o.always_ready = true;
 		}
 	}
-	if (!failed()) qb_loop_run(L.loop);
+	if (!failed()) qb_loop_run(LP);
 	ev(360, L.iter, (int64_t)L.callbacks);
 	// after the loop: everything must have been dispatched unless the run was cut by stop / iteration cap
 	if (!failed() && !L.stop_by_plan && L.iter < L.max_iter) {
@@ -920,8 +957,8 @@ static void loop_task(void *)
 	L.stopped = true;
 	for (size_t i = 0; i < L.objs.size(); i++) {
 		Obj &o = L.objs[i];
-		if (o.type == O_SIG && o.sreg) { qb_loop_signal_del(L.loop, o.sh); o.sreg = false; }
-		if (o.type == O_FD && o.reg) { qb_loop_poll_del(L.loop, o.rfd); o.reg = false; }
+		if (o.type == O_SIG && o.sreg) { qb_loop_signal_del(LP, o.sh); o.sreg = false; }
+		if (o.type == O_FD && o.reg) { qb_loop_poll_del(LP, o.rfd); o.reg = false; }
 	}
 	qb_loop_destroy(L.loop);
 	L.loop = NULL;
